@@ -14,7 +14,7 @@
    layers; TLC shows they fail with TRUE and hold with FALSE. *)
 EXTENDS Integers, Sequences, FiniteSets, TLC
 
-CONSTANTS Prios, Tags, MaxQ, MaxOps, ShareOnReverse, InitKinds
+CONSTANTS Prios, Tags, MaxQ, MaxOps, ShareOnReverse, InitKinds, InitItems
 
 Items == Prios \X Tags
 Nil   == <<-1, "nil">>
@@ -56,11 +56,19 @@ Grow(a, n) ==                                     \* append beyond capacity: new
 Elems(q) == {arrs[qs[q].arr][i] : i \in 1..qs[q].len}
 Extremal(k, S, x) == x \in S /\ \A y \in S : ~Less(k, y, x)
 
-Init == \E k \in InitKinds :
-          /\ arrs = << <<>> >>
-          /\ qs = << [kind |-> k, arr |-> 1, len |-> 0] >>
-          /\ bags = << {} >>
-          /\ last = [op |-> "init", q |-> 1, kind |-> k]
+\* NewMin/MaxPriorityQueue(items...): heap.Init on the empty slice, then a heap push per item
+InitSeqs == {<<>>} \cup {<<x>> : x \in InitItems} \cup {<<xy[1], xy[2]>> : xy \in {z \in InitItems \X InitItems : z[1] # z[2]}}
+RECURSIVE Build(_, _, _, _)
+Build(k, a, n, its) ==     \* a: backing array (capacity Len(a)), n: live length
+  IF its = <<>> THEN [a |-> a, n |-> n]
+  ELSE LET b == IF n < Len(a) THEN [a EXCEPT ![n + 1] = Head(its)] ELSE [Grow(a, n) EXCEPT ![n + 1] = Head(its)]
+       IN Build(k, Up(k, b, n), n + 1, Tail(its))
+Init == \E k \in InitKinds, its \in InitSeqs :
+          LET r == Build(k, <<>>, 0, its) IN
+          /\ arrs = << r.a >>
+          /\ qs = << [kind |-> k, arr |-> 1, len |-> r.n] >>
+          /\ bags = << {its[i] : i \in 1..Len(its)} >>
+          /\ last = [op |-> "init", q |-> 1, kind |-> k, items |-> its]
           /\ nops = 0
 
 Push(q, it) ==
